@@ -26,7 +26,7 @@ type SMDoc struct {
 	NodeFiles map[string]string
 }
 
-var smMagnitudes = []string{"0", "1", "9", "10", "99", "100", "340", "2147483648", "4294967297", "9007199254740993", "123456789012345678901234567890"}
+var smMagnitudes = []string{"0", "1", "9", "10", "007", "00", "0010", "99", "100", "340", "2147483648", "4294967297", "9007199254740993", "123456789012345678901234567890"}
 
 // DecorateWithSourceMaps renders the graph with source-map nodes added. The graph itself is not modified.
 func DecorateWithSourceMaps(g *Graph, r *rand.Rand) *SMDoc {
